@@ -16,7 +16,7 @@ from liquid.context import RenderContext
 from liquid.exceptions import LiquidError, LocalNamespaceLimitError, OutputStreamLimitError
 from liquid.output import LimitedStringIO
 
-from vf.hx import excluded, finish
+from vf.hx import cint, excluded, finish, untraced
 
 PROPERTY = "C07"
 
@@ -299,6 +299,92 @@ for _k in NS_SKEL:
     globals()["c07_ns_" + _k] = _mk_ns(_k)
     CONDITIONS.append({"fn": "c07_ns_" + _k, "quick": 60, "thorough": 240})
 
+# ---- A1: the asynchronous entry points enforce the same limits -------------------------------------
+import asyncio
+
+KINDS = list(SKEL)
+NKINDS = list(NS_SKEL)
+
+
+def _arun(t, data):
+    return asyncio.run(t.render_async(**data))
+
+
+def async_out_sweep(ki, L):
+    """Failures of: render_async under output limit L behaves exactly like render (same text or the same error), and a
+    completed asynchronous render is within L."""
+    t = T[KINDS[ki]]
+    bad = []
+    for vi in range(7):
+        for wi in range(4):
+            for n in range(3):
+                data = {"v": txt(vi), "w": txt(wi), "xs": list(range(n))}
+                ENV.output_stream_limit = None
+                full = t.render(**data)
+                want = render_limited(t, L, data)
+                ENV.output_stream_limit = L
+                try:
+                    try:
+                        got = _arun(t, data)
+                    except OutputStreamLimitError:
+                        got = None
+                finally:
+                    ENV.output_stream_limit = None
+                if got != want or (got is not None and ulen(got) > L) or (got is not None and got != full):
+                    bad.append({"v": txt(vi), "w": txt(wi), "n": n, "sync": want, "async": got})
+    return bad
+
+
+def c07_async_out(ki: int, L: int) -> bool:
+    """
+    pre: 0 <= ki <= 13 and 0 <= L <= 60
+    post: _
+    """
+    if excluded("c07_async_out", locals()):
+        return True
+    ki, L = cint(ki, 0, 13), cint(L, 0, 60)
+    return finish(untraced(lambda: not async_out_sweep(ki, L)))
+
+
+def async_ns_sweep(ki, M):
+    """Failures of: render_async under namespace limit M completes exactly when render does (real sys.getsizeof)."""
+    t = NT[NKINDS[ki]]
+    bad = []
+    for vi in range(7):
+        for n in range(3):
+            data = {"v": txt(vi), "w": txt((vi + 3) % 7), "n": n, "xs": list(range(n))}
+            NENV.local_namespace_limit = M
+            try:
+                res = []
+                for run in (lambda: t.render(**data), lambda: _arun(t, data)):
+                    try:
+                        res.append(("ok", run()))
+                    except LocalNamespaceLimitError:
+                        res.append(("limit", None))
+            finally:
+                NENV.local_namespace_limit = None
+            if res[0] != res[1]:
+                bad.append({"data": data, "sync": res[0], "async": res[1]})
+    return bad
+
+
+def c07_async_ns(ki: int, mi: int) -> bool:
+    """
+    pre: 0 <= ki <= 8 and 0 <= mi <= 24
+    post: _
+    """
+    if excluded("c07_async_ns", locals()):
+        return True
+    ki, mi = cint(ki, 0, 8), cint(mi, 0, 24)
+    return finish(untraced(lambda: not async_ns_sweep(ki, 20 * mi)))
+
+
+DETAIL = globals().get("DETAIL", {})
+DETAIL["c07_async_out"] = lambda ki, L: {"template": SKEL[KINDS[ki]], "limit": L, "failing": async_out_sweep(ki, L)[:3]}
+DETAIL["c07_async_ns"] = lambda ki, mi: {"template": NS_SKEL[NKINDS[ki]], "limit": 20 * mi, "failing": async_ns_sweep(ki, 20 * mi)[:3]}
+CONDITIONS.append({"fn": "c07_async_out", "quick": 120, "thorough": 300, "sel_only": True})
+CONDITIONS.append({"fn": "c07_async_ns", "quick": 60, "thorough": 120, "sel_only": True})
+
 ASSUMPTIONS = [
     "text contents come from a 7-element pool (multi-byte characters and CR LF; selector); limits, loop lengths and stubbed object sizes are symbolic",
     "N1: sys.getsizeof inside liquid.context is replaced by a size function with symbolic per-kind sizes (str: ss + len, int: si, other: so); the property is about the accounting, not CPython's object sizes",
@@ -313,4 +399,6 @@ def selftest():
     ENV.output_stream_limit = None
     if T["capture_out"].render(v="a", w="é", xs=[]) != "aéaé":
         fails.append("capture_out baseline")
+    if len(KINDS) != 14 or len(NKINDS) != 9:
+        fails.append("skeleton counts changed: update the bounds of c07_async_*")
     return fails
